@@ -12,6 +12,7 @@ from sa import dataflow as df
 
 class AbsInt:
     MAX_DEPTH = 12
+    AUG_KEEPS_VALUE = False
 
     def __init__(self, idx):
         self.idx = idx
@@ -66,6 +67,10 @@ class AbsInt:
 
     def other(self, node, ctx):
         return self.unknown(type(node).__name__)
+
+    def cyclic(self, name):
+        """value of a name met again while it is being evaluated (loop-carried definitions)"""
+        return self.unknown(f"cyclic {name}")
 
     def follow_callee(self, callee):
         """whether to evaluate the callee's return interprocedurally"""
@@ -171,7 +176,7 @@ class AbsInt:
             params = [x.arg for x in a.posonlyargs + a.args + a.kwonlyargs]
             if asg:
                 if key in ctx.busy:
-                    return self.unknown(f"cyclic {name}")
+                    return self.cyclic(name)
                 ctx.busy.add(key)
                 try:
                     vals = []
@@ -210,6 +215,8 @@ class AbsInt:
                             return cur
                     for v, path, st in asg:
                         if isinstance(v, ast.AugAssign):
+                            if self.AUG_KEEPS_VALUE:
+                                continue  # `x op= e` does not change what this domain tracks about x
                             vals.append(self.binop(ast.BinOp(left=ast.Name(id=name, ctx=ast.Load()), op=v.op, right=v.value), self.unknown("aug"), self.ev(v.value, sub), sub))
                             continue
                         val = self.ev(v, sub)
